@@ -12,7 +12,7 @@ Dir(lp, lb) == [lp |-> lp, lb |-> lb]
 
 Base == [cmd |-> "json", hard |-> FALSE, algo |-> 1, lnset |-> TRUE, conn |-> "v4", pol |-> "NONS", ntok |-> 3, sock |-> "ok",
          logf |-> "ok", cfile |-> "ok", hsec |-> "present", ids |-> <<0, 1, 3>>, val |-> 600, eps |-> <<G1>>, epform |-> "list",
-         tls |-> "ok", rt |-> "normal", dir |-> Dir("U", "none"), pa |-> "user", ans |-> "honest", die |-> 0,
+         tls |-> "ok", rt |-> "normal", dir |-> Dir("U", "none"), pa |-> "user", ans |-> "honest", die |-> 0, dk |-> "close",
          lnv |-> "ln", ru |-> "ru", rh |-> "rh", ip |-> "ip", tid |-> "t"]
 
 \* (i) process environment
@@ -61,14 +61,19 @@ AgentQ == {[Base EXCEPT !.dir = Dir(a, b), !.pa = p] : a \in FileCls, b \in File
      \cup {[Base EXCEPT !.dir = d, !.pa = p, !.ans = a] : d \in {Dir("U", "none"), Dir("none", "U")}, p \in {"user", "old", "nokey"}, a \in Answers}
 AgentFull == {[Base EXCEPT !.dir = Dir(a, b), !.pa = p, !.ans = an] : a \in FileCls, b \in FileCls, p \in {"user", "old", "nokey"}, an \in Answers}
 \* the agent connection dies at request 1..8 (challenge, key insertion, list, removals, additions)
-DieQ == {[Base EXCEPT !.die = d, !.pa = p, !.eps = l] : d \in 1..8, p \in {"user", "old"}, l \in {<<G1>>, <<G2>>, <<EP("genuine", "rpc", 0), G2>>}}
-DieFull == DieQ \cup {[Base EXCEPT !.die = d, !.pa = "old", !.eps = l, !.algo = a, !.ids = <<1>>] :
-                         d \in 1..8, l \in {<<G2>>, <<EP("foreign", "sign", 1)>>}, a \in {1, 3}}
+DieQ == {[Base EXCEPT !.die = d, !.dk = k, !.pa = p, !.eps = l] : d \in 1..8, k \in {"close", "fail"}, p \in {"user", "old"},
+                                                                   l \in {<<G1>>, <<G2>>, <<EP("genuine", "rpc", 0), G2>>}}
+\* an endpoint that does not answer, with a generous and with a tight request timeout
+H == EP("genuine", "hang", 0)
+HangQ == {[Base EXCEPT !.eps = l, !.rt = t, !.pa = p] : l \in {<<H>>, <<H, G1>>, <<G2, H>>, <<H, H>>, <<EP("foreign", "hang", 0), G1>>},
+                                                        t \in {"normal", "tight"}, p \in {"user", "old"}}
+DieFull == DieQ \cup {[Base EXCEPT !.die = d, !.dk = k, !.pa = "old", !.eps = l, !.algo = a, !.ids = <<1>>] :
+                         d \in 1..8, k \in {"close", "fail"}, l \in {<<G2>>, <<EP("foreign", "sign", 1)>>}, a \in {1, 3}}
 \* refusals of the handler combined with everything a later stage would need
 Refuse == {[WithArgv(WithCmd(Base, c), a) EXCEPT !.pa = p, !.eps = l] : c \in {<<"json", TRUE, 1>>, <<"json", FALSE, 1>>, <<"legacy", TRUE, 0>>},
               a \in {<<"NONS", 3>>, <<"NSOK", 3>>, <<"NSOK", 5>>}, p \in {"user", "old"}, l \in {<<G2>>, <<EP("foreign", "sign", 1), G1>>}}
 
-ScQuick == EnvPairs \cup ConfQ \cup EpsQ \cup EpsFull \cup AgentQ \cup AgentFull \cup DieQ \cup Refuse
+ScQuick == EnvPairs \cup ConfQ \cup EpsQ \cup EpsFull \cup AgentQ \cup AgentFull \cup DieQ \cup HangQ \cup Refuse
 ScThorough == ScQuick \cup EnvFull \cup ConfFull \cup DieFull
 
 \* one (arbitrary) removal order is enough for the bounded runs: which R-labelled identity goes first is not observable
